@@ -32,6 +32,8 @@ type c10Workload struct {
 	src     string
 	endless bool // never completes on its own
 	vmOnly  bool
+	interpOnly bool // only meaningful for the interpreter
+	killGrace  bool // defines an `event fn kill`: the interpreter grants it 10 s after termination, by design
 	fixedN    int  // if > 0 the only value of N used (tree workloads grow exponentially with N)
 	genProg   bool // a random program from gen.go; Params["n"] is the generator seed
 	generated bool // one of the generated loop x body x wrapper workloads (fewer cancellation points each)
@@ -121,6 +123,10 @@ fn main() { for i in 0..N { spawn w(i); } let c = 0; while c < 200 { c = c + 1; 
 	{name: "spawn-try", endless: true, vmOnly: true, check: noOutput, src: `
 fn w(id: int) { try { loop { let a = 1; } } catch e { println("caught", id); } }
 fn main() { for i in 0..N { spawn w(i); } try { time.sleep(20.0); } catch e { println("caught main"); } }`},
+	{name: "kill-event-loops", endless: true, interpOnly: true, killGrace: true, check: noOutput, src: `
+let n = 0;
+event fn kill() { loop { n = n + 1; } }
+fn main() { loop { n = n + 1; } }`},
 	{name: "recursion-fanout", endless: true, check: noOutput, src: `
 fn fib(n: int) -> int { if n < 2 { n } else { fib(n - 1) + fib(n - 2) } }
 fn main() { println(fib(70)); }`},
@@ -167,9 +173,12 @@ fn main() { for i in 0..N { time.sleep(0.013); spawn w(i); } loop { let z = 0; }
 func init() {
 	loops := []struct{ name, head string }{
 		{"loop", "loop"}, {"while-lit", "while true"}, {"while-ident", "while flag"}, {"while-expr", "while n >= 0"}, {"for", "for i in 0..2000000000"},
+		{"for-list", "loop { for e in [1, 2, 3, 4, 5, 6, 7, 8]"}, {"for-str", "loop { for ch in \"abcdefgh\""},
 	}
 	bodies := []struct{ name, body string }{
 		{"empty", ""}, {"let", "let a = 1;"}, {"assign", "n = n + 1;"}, {"call", "f(n);"}, {"nested-empty", "if flag { }"},
+		{"match", "match n % 3 { 0 => { n = n + 1; }, _ => { n = n + 2; } }"}, {"index-chain", "let q = [[1, 2], [3, 4]][n % 2][1]; n = (n + q) % 1000;"},
+		{"member-call", "let s = n.to_string().len();"}, {"nested-args", "n = f(f(f(n))) % 1000;"},
 	}
 	wraps := []struct{ name, pre, post string }{
 		{"plain", "", ""}, {"in-try", "try {", "} catch e { println(\"caught\"); }"}, {"in-callee", "", ""}, {"in-try-last", "try {", "} catch e { }"},
@@ -177,7 +186,11 @@ func init() {
 	for _, l := range loops {
 		for _, b := range bodies {
 			for _, w := range wraps {
-				inner := fmt.Sprintf("%s %s { %s } %s", w.pre, l.head, b.body, w.post)
+				closeOuter := ""
+				if strings.HasPrefix(l.head, "loop { for") {
+					closeOuter = " }"
+				}
+				inner := fmt.Sprintf("%s %s { %s }%s %s", w.pre, l.head, b.body, closeOuter, w.post)
 				src := "fn f(x: int) -> int { x + 1 }\n"
 				if w.name == "in-callee" {
 					src += fmt.Sprintf("fn spin(flag: bool) { let n = 0; %s }\nfn main() { spin(true); println(\"after\"); }", inner)
@@ -233,7 +246,10 @@ func c10Exec(t *testing.T, spec RunSpec, cancelAt int64, deadline time.Duration,
 			} else {
 				s.Fault("cancel-at-simulated-instant")
 			}
-			if arm {
+			if arm && w.killGrace {
+				// KILL_EVENT_TIMEOUT_SECS = 10: the kill handler may run that long, not longer
+				s.SetDeadline("wait-returns-after-cancel", 12*time.Second)
+			} else if arm {
 				s.ArmStepBound("after-cancel", stepBoundAfterStop)
 				s.SetDeadline("wait-returns-after-cancel", 2*time.Second)
 			}
@@ -512,7 +528,7 @@ func planC10(t *testing.T, tier string, seed uint64) ([]RunSpec, error) {
 	idx := 0
 	for wi, w := range c10Workloads {
 		for backend := 0; backend < 2; backend++ {
-			if backend == 1 && w.vmOnly {
+			if backend == 1 && w.vmOnly || backend == 0 && w.interpOnly {
 				continue
 			}
 			nlist := []int{1}
